@@ -463,9 +463,20 @@ func (s *netSim) deliver(to int, kind string, raw []byte) {
 	}
 	msg := &network.Message{StateRootInHeader: s.r.plan.Proto.StateRootInHeader}
 	var derr error
-	if pv := sim.Recover(func() { derr = msg.Decode(nio.NewBinReaderFromBuf(raw)) }); pv != nil {
+	var allocated uint64
+	if pv := sim.Recover(func() {
+		if strings.HasSuffix(kind, "*") {
+			derr, allocated = decodeMeasured(msg, raw)
+		} else {
+			derr = msg.Decode(nio.NewBinReaderFromBuf(raw))
+		}
+	}); pv != nil {
 		pv.Msg = fmt.Sprintf("decoding a %s message of %d bytes panicked: %s", kind, len(raw), pv.Msg)
 		s.r.violate(pv)
+		return
+	}
+	if allocated > maxDecodeAlloc {
+		s.r.violate(allocViolation(kind, len(raw), allocated))
 		return
 	}
 	if derr != nil {
@@ -512,6 +523,9 @@ func (s *netSim) deliver(to int, kind string, raw []byte) {
 		s.submitTx(v, tx)
 	default:
 		s.r.out.Probes["wire_other_command"]++
+		if s.r.prop == "C17" {
+			s.checkReencode(msg, raw)
+		}
 	}
 }
 
@@ -917,6 +931,9 @@ func (r *run) runNet() {
 	})
 	if np.Election {
 		s.scheduleElection()
+	}
+	if r.prop == "C17" {
+		s.scheduleChatter()
 	}
 	// planned events: client transactions, observer restarts, periodic sync offers
 	for i := range np.Txs {
